@@ -786,7 +786,37 @@ def narrow_top_surface(d: int, sign: float):
     return NarrowTop()
 
 
+def ridge_surface(bounds):
+    """-cos along the first coordinate (a saddle at 35 % of its range, one minimum at 85 %, the other BEYOND the lower
+    wall) plus squares of the other coordinates: the descent on the lower side runs into the wall and ends pinned on it"""
+    _, _, Potential = imports()
+    lo0, up0 = bounds[0]
+    m = lo0 + 0.35 * (up0 - lo0)
+    a = math.pi / (0.5 * (up0 - lo0))
+
+    class Ridge(Potential):
+        def __init__(self):
+            self.atomistic = False
+
+        def function(self, x):
+            x = np.asarray(x, dtype=float)
+            return float(math.cos(a * (x[0] - m)) + np.sum(x[1:] ** 2))
+
+        def gradient(self, x):
+            x = np.asarray(x, dtype=float)
+            g = 2.0 * x
+            g[0] = -a * math.sin(a * (x[0] - m))
+            return g
+
+        def function_gradient(self, x):
+            return self.function(x), self.gradient(x)
+    return Ridge()
+
+
 def make_surface(spec: dict):
+    if spec["kind"] == "ridge":
+        b = [(float(lo), float(up)) for lo, up in spec["bounds"]]
+        return ridge_surface(b), b
     if spec["kind"] == "narrowtop":
         return narrow_top_surface(spec["d"], spec["sign"]), [(-2.0, 2.0)] * spec["d"]
     if spec["kind"] == "dwell":
@@ -1173,6 +1203,12 @@ def pred_conv(g, lo, up, tol=TOL):
     want = all(abs(g[i]) < tol for i in range(d) if not (lo[i] or up[i]))
     if err:
         return ("test_convergence:raises", f"test_convergence raised {err} for gradient {g}, lower {lo}, upper {up}")
+    # the same pattern written as 0/1 integers (as a caller who builds the flags by hand does): the same answer
+    r_int, err_int = call(h.test_convergence, np.zeros(d), np.array([int(bool(v)) for v in lo]), np.array([int(bool(v)) for v in up]))
+    if err_int or bool(r_int) != bool(r):
+        return ("test_convergence:integer-flags-differ",
+                f"gradient {g}, lower {lo}, upper {up}: with the flags as booleans the answer is {bool(r)}, with the same "
+                f"flags as 0/1 integers it is {('raises ' + str(err_int)) if err_int else bool(r_int)}")
     if want and not r:
         return ("test_convergence:free-below-tol-not-converged",
                 f"gradient {g} is below {tol} in every coordinate not pinned (lower {lo}, upper {up}) but the "
@@ -1217,7 +1253,7 @@ def pred_search(spec: dict, x0, np_seed: int, ts_steps: int = 40, reuse: dict | 
         h = reuse["h"]
         h.ts_steps = ts_steps
     else:
-        h = HEF(pot, spec.get("tol", 1e-4), ts_steps, 0.8)
+        h = HEF(pot, spec.get("tol", 1e-4), ts_steps, spec.get("pushoff", 0.8), **spec.get("hef", {}))
         if reuse is not None:
             reuse["h"] = h
     np.random.seed(np_seed)
@@ -1318,6 +1354,20 @@ def predicates(ctx: Ctx) -> None:
                 if r:
                     ctx.fail(r[0], r[1], {"kind": "search", "surface": spec, "x0": x0, "np_seed": seed, "ts_steps": 60,
                                           "reused": False})
+    # a wall that is neither zero nor large compared with the local step (0.003 in a box of width 2): a descent that runs
+    # into it must end ON it, not an ulp beyond (containment is judged exactly)
+    for lo0, up0 in ((0.003, 2.0), (0.001, 1000.0), (0.0005, 1.0), (0.1, 50.0), (0.013, 4.0)):
+        for d in (1, 2, 3):
+            w = up0 - lo0
+            spec = {"kind": "ridge", "bounds": [[lo0, up0]] + [[-1.0, 1.0]] * (d - 1), "tol": 1e-5 * max(1.0, 1.0 / w),
+                    "pushoff": 0.05 * w, "hef": {"max_uphill_step_size": 0.1 * w, "positive_eigenvalue_step": 0.02 * w}}
+            x0 = [lo0 + (0.35 + rng.uniform(0.01, 0.05)) * w] + [rng.uniform(-0.2, 0.2) for _ in range(d - 1)]
+            seed = rng.randrange(2 ** 31)
+            r = pred_search(spec, x0, seed, 80)
+            ctx.stats.case({"stream": "predicate-search-small-wall", "surface": spec, "x0": V(x0)}, True)
+            if r:
+                ctx.fail(r[0], r[1], {"kind": "search", "surface": spec, "x0": x0, "np_seed": seed, "ts_steps": 80,
+                                      "reused": False})
     # searches started on a face that has to be left (the set of pinned coordinates changes during the search)
     for d in (3, 3, 4):
         spec = {"kind": "dwell", "d": d}
